@@ -14,6 +14,8 @@ type GenFile struct {
 	Path string `json:"path"` // relative to the project directory
 	Data []byte `json:"data"`
 	CRLF bool   `json:"crlf,omitempty"`
+	// Special: "fifo" - not a regular file but a named pipe nobody writes into (reading it blocks).
+	Special string `json:"special,omitempty"`
 }
 
 type KW struct {
